@@ -218,14 +218,26 @@ NS_RE = re.compile(r"^\s*namespace\s+([A-Za-z0-9_.]+)", re.M)
 
 
 def theorems_of(module):
-    """fully qualified names of the theorems stated in a Thm module (single namespace per file)"""
+    """fully qualified names of the theorems stated in a Thm module (namespaces tracked line by line)"""
     path = os.path.join(LEAN, *module.split(".")) + ".lean"
     src = open(path).read()
     src_nc = re.sub(r"/-.*?-/", "", src, flags=re.S)
     src_nc = re.sub(r"--[^\n]*", "", src_nc)
-    ns = NS_RE.search(src_nc)
-    pre = (ns.group(1) + ".") if ns else ""
-    return [pre + m for m in THM_RE.findall(src_nc)], src
+    ns = []
+    names = []
+    for l in src_nc.split("\n"):
+        m = re.match(r"^\s*namespace\s+([A-Za-z0-9_.]+)", l)
+        if m:
+            ns.append(m.group(1))
+            continue
+        m = re.match(r"^\s*end\s+([A-Za-z0-9_.]+)", l)
+        if m and ns and ns[-1] == m.group(1):
+            ns.pop()
+            continue
+        m = re.match(r"^\s*(?:private\s+)?theorem\s+([A-Za-z_][A-Za-z0-9_.']*)", l)
+        if m:
+            names.append(".".join(ns + [m.group(1)]))
+    return names, src
 
 
 FORBIDDEN = re.compile(r"\bsorry\b|\badmit\b|^\s*axiom\s|native_decide|implemented_by|\bunsafe\s|maxHeartbeats\s+0\b", re.M)
@@ -260,7 +272,7 @@ def audit_axioms(module, names):
     res = {}
     cur = None
     text = out + err
-    for m in re.finditer(r"'([^']+)' (?:depends on axioms: \[([^\]]*)\]|does not depend on any axioms)", text, re.S):
+    for m in re.finditer(r"'(\S+?)' (?:depends on axioms: \[([^\]]*)\]|does not depend on any axioms)", text, re.S):
         name = m.group(1)
         ax = [a.strip() for a in (m.group(2) or "").replace("\n", " ").split(",") if a.strip()]
         res[name] = ax
